@@ -6,7 +6,7 @@ CONSTANTS
   GivenIds = {"a", "b", "Util"}
   NumIds = {"Util"}
   SrcForms = {"absent", "assign_empty", "bare", "uri", "uri2", "ref", "tcp", "ipc", "ref+tcp", "tcp+ref", "ref+ref"}
-  RefSuffixes = {"", "?", "??", ";t", ";a>b", "!o", "??;t!o", ";t;a>b"}
+  RefSuffixes = {"", "?", "??", ";t", ";a>b", "!o", "??;t!o", ";t;a>b", "?!o", "??!o"}
   AddrSuffixes = {"", "??", ";t"}
   UriSuffixes = {"", "!o"}
   SrcHosts = {"localhost", "10.0.0.5"}
